@@ -105,3 +105,112 @@ Definition enc_wrapper (w : wrapperw) : val :=
   VR "DataclassWrapper" [("fields", VL (map enc_field (w_fields w))); ("defaults", VL (w_defaults w))].
 Definition MERGE : string := "ConflictResolution.ALWAYS_MERGE".
 Definition enc_parser (mode : string) : val := VR "ArgumentParser" [("conflict_resolution", VS mode)].
+
+(* ====================================================================================================================== *)
+(* ArgumentParser._instantiate_dataclasses and _create_dataclass_instance (parsing.py)                                     *)
+(* ====================================================================================================================== *)
+Record ifield := mkifield { if_name : string; if_default : val }.       (* FieldWrapper.name, FieldWrapper.default (evaluated) *)
+Record iwrapper := mkiwrapper {
+  iw_level : nat;                        (* DataclassWrapper.nesting_level *)
+  iw_dests : list string;                (* .destinations *)
+  iw_ctor : list (val * val);            (* .dataclass_fn as a table: keyword dict -> instance, (VC "raise", cls) = raises cls *)
+  iw_defaults : list val;                (* .defaults *)
+  iw_optional : bool;
+  iw_default : val;                      (* .default *)
+  iw_fields : list ifield;
+  iw_parent : val;                       (* .parent: None or the parent wrapper (only `is not None` is looked at) *)
+  iw_dest : string                       (* .dest *)
+}.
+
+Definition is_none (v : val) : bool := match v with VNone => true | _ => false end.
+Definition none_or_suppress (d : val) : bool := existsb (val_eqb d) [VNone; SUPPRESS].      (* default in (None, argparse.SUPPRESS) *)
+
+(* the for .. else of _create_dataclass_instance: true = every constructor argument equals the field's default (no break) *)
+Fixpoint at_defaults (fs : list ifield) (args : list (val * val)) : res bool :=
+  match fs with
+  | [] => Ok true
+  | f :: t => match dget (VS (if_name f)) args with
+              | None => Err (Raise "KeyError")
+              | Some a => if negb (val_eqb a (if_default f)) then Ok false else at_defaults t args
+              end
+  end.
+
+(* _create_dataclass_instance: the Optional-member guard, then the (uninterpreted) constructor on the keyword dict *)
+Definition create_fn (w : iwrapper) (args : list (val * val)) : res val :=
+  if iw_optional w && (is_none (iw_default w) && forallb none_or_suppress (iw_defaults w)) then
+    match at_defaults (iw_fields w) args with
+    | Err z => Err z
+    | Ok true => Ok VNone
+    | Ok false => call_table (iw_ctor w) (VD args)
+    end
+  else call_table (iw_ctor w) (VD args).
+
+Definition dpop_default (k : val) (d : list (val * val)) : list (val * val) := if is_some (dget k d) then ddel k d else d.
+Definition DC_TYPE_KEY : string := "_type_".
+
+(* one destination of one wrapper: (constructor_arguments, namespace) -> the same, updated *)
+Definition inst_dest (pdefaults : list (val * val)) (w : iwrapper) (d : string)
+           (ca : list (val * val)) (ns : list (string * val)) : res (list (val * val) * list (string * val)) :=
+  match dget (VS d) ca with
+  | None => Err (Raise "KeyError")                                      (* constructor_arguments.pop(destination) *)
+  | Some (VD args0) =>
+      let ca1 := ddel (VS d) ca in
+      let args := dpop_default (VS DC_TYPE_KEY) args0 in                (* constructor_args.pop(DC_TYPE_KEY, None) *)
+      let sup := existsb (val_eqb SUPPRESS) (iw_defaults w) in
+      match (if sup then Ok (if val_eqb (VD args) (VD []) then VNone else VD args) else create_fn w args) with
+      | Err z => Err z
+      | Ok value =>
+          if sup && is_none value then Ok (ca1, ns)
+          else if negb (is_none (iw_parent w)) then
+            match ca_put ca1 d value with Ok ca2 => Ok (ca2, ns) | Err z => Err z end
+          else if negb (is_some (rget d ns)) then Ok (ca1, rset d value ns)
+          else if is_some (dget (VS (iw_dest w)) pdefaults) then Ok (ca1, rset d value ns)
+          else Err (Raise "RuntimeError")
+      end
+  | Some _ => rerr
+  end.
+
+Fixpoint inst_dests (pdefaults : list (val * val)) (w : iwrapper) (ds : list string) (ca : list (val * val)) (ns : list (string * val))
+  : res (list (val * val) * list (string * val)) :=
+  match ds with
+  | [] => Ok (ca, ns)
+  | d :: t => match inst_dest pdefaults w d ca ns with
+              | Err z => Err z
+              | Ok (ca', ns') => inst_dests pdefaults w t ca' ns'
+              end
+  end.
+Fixpoint inst_wrappers (pdefaults : list (val * val)) (ws : list iwrapper) (ca : list (val * val)) (ns : list (string * val))
+  : res (list (val * val) * list (string * val)) :=
+  match ws with
+  | [] => Ok (ca, ns)
+  | w :: t => match inst_dests pdefaults w (iw_dests w) ca ns with
+              | Err z => Err z
+              | Ok (ca', ns') => inst_wrappers pdefaults t ca' ns'
+              end
+  end.
+
+(* sorted(wrappers, key=lambda w: w.nesting_level, reverse=True): deepest first, stable *)
+Fixpoint ins_level (x : iwrapper) (l : list iwrapper) : list iwrapper :=
+  match l with
+  | [] => [x]
+  | y :: t => if Nat.ltb (iw_level y) (iw_level x) then x :: l else y :: ins_level x t
+  end.
+Definition deepest_first (ws : list iwrapper) : list iwrapper := fold_left (fun acc w => ins_level w acc) ws [].
+
+(* the whole function: the namespace with the instances set *)
+Definition instantiate_fn (merge : bool) (pdefaults : list (val * val)) (ws : list iwrapper) (ns : list (string * val))
+           (ca0 : list (val * val)) : res (list (string * val)) :=
+  if negb merge && negb (Nat.eqb (List.length ws) (List.length ca0)) then Err (Raise "AssertionError")
+  else match inst_wrappers pdefaults (deepest_first ws) ca0 ns with
+       | Err z => Err z
+       | Ok (ca', ns') => match ca' with [] => Ok ns' | _ :: _ => Err (Raise "AssertionError") end      (* assert not constructor_arguments *)
+       end.
+
+Definition enc_ifield (f : ifield) : val := VR "FieldWrapper" [("name", VS (if_name f)); ("default", if_default f)].
+Definition enc_iwrapper (w : iwrapper) : val :=
+  VR "DataclassWrapper"
+     [("nesting_level", VN (iw_level w)); ("destinations", VL (map VS (iw_dests w))); ("dataclass_fn", VD (iw_ctor w));
+      ("defaults", VL (iw_defaults w)); ("optional", VB (iw_optional w)); ("default", iw_default w);
+      ("fields", VL (map enc_ifield (iw_fields w))); ("parent", iw_parent w); ("dest", VS (iw_dest w))].
+Definition enc_iparser (mode : string) (pdefaults : list (val * val)) : val :=
+  VR "ArgumentParser" [("conflict_resolution", VS mode); ("_defaults", VD pdefaults)].
